@@ -185,25 +185,28 @@ def run(ctx):
                   "R08.6", "%s|update-gets-request-fields" % f.name, "the in-place update receives the request's key, value, ttl and remove flag unchanged", f.where(ubb), str([fmt(a) for a in uargs[1:]]))
         sends_all = [b for b, t in f.calls() if t.get("rpath") in A.send_fns]
         ctx.check(all(f.block_dominates(ubb, b) for b in sends_all), "R08.6", "%s|update-before-queueing" % f.name, "the in-place update precedes anything that is queued", f.where(ubb))
-        paths = enum_paths(f)
+        uw_fns = {n for n, g in F.fns.items() if n.endswith("::updated_weight") and g.kind != "Closure"}
+        opaque = set(upd_store) | set(A.send_fns) | set(T.register_only) | set(T.unregister_fns) | set(T.move_fns) | cls_names | uw_fns
+        paths = ipaths(F, f, stop=lambda n: n in opaque, depth=3, model_unwrap=True)
         ctx.analysed["paths"] += len(paths)
         bad3, bad4, bad5 = [], [], []
         seen_variants = set()
         n_fallback = 0
         for p in paths:
-            if ubb not in p:
+            ue = [e for e in p.events if e.fn is f and e.bb == ubb]
+            if not ue:
                 continue
-            atoms = path_atoms(f, p)
-            calls = path_calls(f, p)
-            did = [a for a in atoms if a[0] == "bool" and a[1][0] == "call" and a[1][1].endswith("did_update_happen") and strip_site(a[1][2][0]) == strip_site(resp)]
-            sends = [(b, t) for b, t in calls if t.get("rpath") in A.send_fns]
-            reg = [(b, t) for b, t in calls if t.get("rpath") in T.register_only]
-            unreg = [(b, t) for b, t in calls if t.get("rpath") in T.unregister_fns]
-            mov = [(b, t) for b, t in calls if t.get("rpath") in T.move_fns]
-            if not did:
+            resp_p = ue[0].res
+            did = p.variant_of(("field", resp_p, "0"))
+            sends = p.calls(A.send_fns)
+            reg = p.calls(T.register_only)
+            unreg = p.calls(T.unregister_fns)
+            mov = p.calls(T.move_fns)
+            if did not in (("Some",), ("None",)):
                 bad5.append(("the update outcome is not examined", p))
                 continue
-            if did[0][2] is False:
+            uw = [e for e in p.events if e.callee in uw_fns]
+            if did == ("None",):
                 # ---- fallback: acts as put -------------------------------------------------------
                 n_fallback += 1
                 if reg or unreg or mov:
@@ -211,90 +214,85 @@ def run(ctx):
                 if len(sends) != 1:
                     bad5.append(("fallback queues %d commands" % len(sends), p))
                     continue
-                cmd = f.op_origin(sends[0][1]["args"][1])
-                ttl_atom = [a for a in atoms if a[0] == "enum" and a[1] == ("field", req, "time_to_live")]
-                want = "PutWithTTL" if (ttl_atom and ttl_atom[0][2] == ("Some",)) else "Put"
-                if cmd[0] != "agg" or cmd[2] != want:
-                    bad5.append(("fallback sends %s, expected %s" % (cmd[2] if cmd[0] == "agg" else fmt(cmd), want), p))
+                cmd = sends[0].args[1]
+                ttl_v = p.variant_of(("field", req, "time_to_live"))
+                want = "PutWithTTL" if ttl_v == ("Some",) else "Put"
+                if ttl_v not in (("Some",), ("None",)) or cmd[0] != "agg" or cmd[2] != want:
+                    bad5.append(("fallback sends %s, expected %s" % (cmd[2] if cmd[0] == "agg" else fmt(cmd)[:60], want), p))
                     continue
                 fields = dict(cmd[3])
                 kd = inline_ctor(F, fields["0"])
                 kdf = dict(kd[3]) if kd[0] == "agg" else {}
-                val_ok = mentions(fields["1"], lambda s: strip_site(s) == ("field", strip_site(resp), "2")) and is_call_to(fields["1"], "unwrap")
-                w_ok = is_call_to(kdf.get("weight", ()), "unwrap") and mentions(kdf["weight"], lambda s: s[0] == "call" and s[1].endswith("updated_weight"))
-                k_ok = kdf.get("key") == ("field", req, "key")
-                t_ok = want == "Put" or fields.get("2") == ("field", ("variant", ("field", req, "time_to_live"), "Some"), "0")
+                val_ok = same_value(fields["1"], ("field", ("variant", ("field", resp_p, "2"), "Some"), "0"))
+                wv = kdf.get("weight", ())
+                w_ok = bool(uw) and any(same_value(wv, ("field", ("variant", u.res, "Some"), "0")) for u in uw) and \
+                    all(u.args[0] == req for u in uw)
+                k_ok = same_value(kdf.get("key", ()), ("field", req, "key"))
+                t_ok = want == "Put" or same_value(fields.get("2"), ("field", ("variant", ("field", req, "time_to_live"), "Some"), "0"))
                 if not (val_ok and w_ok and k_ok and t_ok):
                     bad5.append(("fallback put does not carry the request's key/value/weight/ttl (key %s value %s weight %s ttl %s)" % (k_ok, val_ok, w_ok, t_ok), p))
                 continue
             # ---- update happened -------------------------------------------------------------------
-            ca = [a for a in atoms if a[0] == "enum" and a[1][0] == "call" and a[1][1] in cls_names and strip_site(a[1][2][0]) == strip_site(resp)]
-            if not ca:
+            ce = [e for e in p.events if e.callee in cls_names and strip_site(e.args[0]) == strip_site(resp_p)]
+            vs = p.variant_of(ce[0].res) if ce else None
+            if not ce or vs is None or any(v.startswith("!") for v in vs):
                 bad3.append(("expiry change is not classified", p))
                 continue
-            cexpr = ca[0][1]
-            for v in ca[0][2]:
+            cexpr = ce[0].res
+            for v in vs:
                 seen_variants.add(v)
-            vs = ca[0][2]
+
             def payload(v, i):
                 return ("field", ("variant", strip_site(cexpr), v), str(i))
-            def arg(t, i):
-                return strip_site(f.op_origin(t["args"][i]))
+
+            def arg(e, i):
+                return strip_site(e.args[i])
             if vs == ("Added",):
-                if not (len(reg) == 1 and not unreg and not mov and arg(reg[0][1], 1) == payload("Added", 0) and arg(reg[0][1], 2) == payload("Added", 1)):
+                if not (len(reg) == 1 and not unreg and not mov and arg(reg[0], 1) == payload("Added", 0) and arg(reg[0], 2) == payload("Added", 1)):
                     bad3.append(("Added must register (id, new expiry) exactly once", p))
             elif vs == ("Deleted",):
-                if not (len(unreg) == 1 and not reg and not mov and arg(unreg[0][1], 1) == payload("Deleted", 0) and arg(unreg[0][1], 2) == payload("Deleted", 1)):
+                if not (len(unreg) == 1 and not reg and not mov and arg(unreg[0], 1) == payload("Deleted", 0) and arg(unreg[0], 2) == payload("Deleted", 1)):
                     bad3.append(("Deleted must unregister (id, old expiry) exactly once", p))
             elif vs == ("Updated",):
-                if not (len(mov) == 1 and not reg and not unreg and arg(mov[0][1], 1) == payload("Updated", 0) and arg(mov[0][1], 2) == payload("Updated", 1) and arg(mov[0][1], 3) == payload("Updated", 2)):
+                if not (len(mov) == 1 and not reg and not unreg and arg(mov[0], 1) == payload("Updated", 0) and arg(mov[0], 2) == payload("Updated", 1) and arg(mov[0], 3) == payload("Updated", 2)):
                     bad3.append(("Updated must move (id, old, new) exactly once", p))
             else:
                 if reg or unreg or mov:
                     bad3.append(("no expiry change but the index is touched", p))
-            # weight command: sent exactly when there is a weight to apply, independent of any other state
-            wopt = [a for a in atoms if a[0] == "enum" and a[2] in (("Some",), ("None",)) and
-                    mentions(a[1], lambda s: s[0] == "call" and s[1].endswith("updated_weight")) and a is not ca[0]]
-            if wopt:
-                has_weight = wopt[-1][2] == ("Some",)
-                if has_weight and len(sends) != 1:
-                    bad4.append(("a weight is to be applied but %d UpdateWeight commands are queued (the charged weight would not follow the request)" % len(sends), p))
-                if not has_weight and sends:
-                    bad4.append(("no weight to apply but a command is queued", p))
+            # weight command: an explicitly requested (or value-derived) weight is always queued, unchanged, for the updated id
             if len(sends) > 1:
                 bad4.append(("%d commands queued" % len(sends), p))
-            for b, t in sends:
-                cmd = f.op_origin(t["args"][1])
+            if len(uw) != 1 or uw[0].args[0] != req:
+                bad4.append(("the weight to apply is not asked of the request exactly once", p))
+                continue
+            has = p.variant_of(uw[0].res)
+            if has not in (("Some",), ("None",)):
+                bad4.append(("whether the request carries a weight to apply is not examined", p))
+                continue
+            if has == ("Some",) and len(sends) != 1:
+                bad4.append(("a weight is to be applied but %d UpdateWeight commands are queued (the charged weight would not follow the request)" % len(sends), p))
+            the_id = ("field", ("field", ("variant", ("field", resp_p, "0"), "Some"), "0"), "0")
+            for e in sends:
+                cmd = e.args[1]
                 if not (cmd[0] == "agg" and cmd[2] == "UpdateWeight"):
                     bad4.append(("an updated key queues %s" % (cmd[2] if cmd[0] == "agg" else "?"), p))
                     continue
                 fields = dict(cmd[3])
-                idok = is_call_to(fields["0"], "key_id_or_panic") and strip_site(fields["0"][2][0]) == strip_site(resp)
+                idok = same_value(fields["0"], the_id)
                 w = fields["1"]
-                # weight = payload of an option whose every origin is request.updated_weight(..) possibly through or_else
-                members = []
-                for wm in (w[1] if w[0] == "phi" else (w,)):
-                    src = wm[1] if wm[0] == "field" and wm[2] == "0" else None
-                    src = src[1] if src and src[0] == "variant" and src[2] == "Some" else None
-                    if src is None:
-                        members = []
-                        break
-                    members += list(src[1]) if src[0] == "phi" else [src]
-                def explicit_first(m):
-                    if is_call_to(m, "updated_weight"):
-                        return True
-                    return m[0] == "call" and m[1].endswith("Option::<T>::or_else") and is_call_to(m[2][0], "updated_weight")
-                if not (idok and members and all(explicit_first(m) for m in members)):
-                    bad4.append(("UpdateWeight does not carry (updated id, requested-or-derived weight): %s" % fmt(w)[:120], p))
+                wok = same_value(w, ("field", ("variant", uw[0].res, "Some"), "0")) if has == ("Some",) else \
+                    (vs in (("Added",), ("Deleted",)) and not mentions(w, lambda s_: s_[0] in ("phi", "unknown")))
+                if not (idok and wok):
+                    bad4.append(("UpdateWeight does not carry (updated id, requested-or-derived weight): id ok %s, weight %s" % (idok, fmt(w)[:100]), p))
         ctx.check(not bad3 and seen_variants >= {"Added", "Deleted", "Updated", "Nothing"}, "R08.3", "%s|classification-drives-index" % f.name,
                   "Added -> register(id,new); Deleted -> unregister(id,old); Updated -> move(id,old,new); Nothing -> no index operation", f.where(),
-                  "; ".join("%s via %s" % (w, q[:10]) for w, q in bad3[:3]) or "variants seen %s" % sorted(seen_variants))
+                  "; ".join("%s %s" % (w, q.show()) for w, q in bad3[:3]) or "variants seen %s" % sorted(seen_variants))
         ctx.check(not bad4, "R08.4", "%s|weight-command" % f.name,
                   "an updated key queues at most one command, UpdateWeight(id of the updated entry, weight), where an explicitly requested weight takes precedence unchanged", f.where(),
-                  "; ".join("%s via %s" % (w, q[:10]) for w, q in bad4[:3]))
+                  "; ".join("%s %s" % (w, q.show()) for w, q in bad4[:3]))
         ctx.check(not bad5 and n_fallback >= 2, "R08.5", "%s|fallback-acts-as-put" % f.name,
                   "when nothing was updated the upsert queues exactly one Put (PutWithTTL iff a ttl was given) carrying the request's key, value, weight and ttl, and touches nothing else (%d fallback paths)" % n_fallback, f.where(),
-                  "; ".join("%s via %s" % (w, q[:10]) for w, q in bad5[:3]))
+                  "; ".join("%s %s" % (w, q.show()) for w, q in bad5[:3]))
     # ---- R08.8 the index operations the upsert relies on do what their classification requires (shared with C10 R10.1)
     import c10
     for o in ctx.own_of("c10"):
@@ -304,9 +302,38 @@ def run(ctx):
     # ---- R08.4: explicit weight first; derived weight uses the ttl flag --------------------------------------
     for n, g in F.fns.items():
         if n.endswith("::updated_weight") and g.kind != "Closure":
-            r = g.origin_local(0)
-            ok = r[0] == "call" and r[1].endswith("Option::<T>::or_else") and r[2][0] == ("field", ("param", 1), "weight")
-            ctx.check(ok, "R08.4", "%s|explicit-weight-first" % n, "the weight to apply is the explicitly requested one if present, else derived from the new value", g.where(), fmt(r)[:160])
+            me = ("param", 1)
+            WGT, VAL, TTL = ("field", me, "weight"), ("field", me, "value"), ("field", me, "time_to_live")
+            bad = []
+            rows = set()
+            for p in ipaths(F, g, stop=lambda n_: False, depth=3, model_unwrap=True):
+                w, v = p.variant_of(WGT), p.variant_of(VAL)
+                rv = p.ret_variant()
+                if w == ("Some",):
+                    rows.add("explicit")
+                    if not (rv == ("Some",) and same_value(p.payload_of(p.ret), ("field", ("variant", WGT, "Some"), "0"))):
+                        bad.append("an explicitly requested weight is not returned unchanged: %s" % fmt(p.ret)[:80])
+                elif w == ("None",) and v == ("None",):
+                    rows.add("nothing")
+                    if rv != ("None",):
+                        bad.append("neither weight nor value requested but a weight is produced")
+                elif w == ("None",) and v == ("Some",):
+                    rows.add("derived")
+                    calls = [e for e in p.events if e.generic.startswith("std::ops::Fn") and e.args[0] == ("param", 2)]
+                    okd = rv == ("Some",) and len(calls) == 1 and same_value(p.payload_of(p.ret), calls[0].res)
+                    if okd:
+                        a = dict(calls[0].args[1][3]) if calls[0].args[1][0] == "agg" else {}
+                        flag = a.get("2")
+                        tv = p.variant_of(TTL)
+                        flag_ok = (flag is not None and flag[0] == "const" and tv in (("Some",), ("None",)) and bool(flag[1]) == (tv == ("Some",))) or \
+                            (is_call_to(flag, "Option::<T>::is_some") and strip_site(flag[2][0]) == TTL)
+                        okd = same_value(a.get("0"), ("field", me, "key")) and same_value(a.get("1"), ("field", ("variant", VAL, "Some"), "0")) and flag_ok
+                    if not okd:
+                        bad.append("a value without an explicit weight must yield Some(weight_fn(key, that value, ttl given?)): %s" % fmt(p.ret)[:100])
+                else:
+                    bad.append("a path does not decide whether a weight / value was requested (weight=%s value=%s)" % (w, v))
+            ctx.check(not bad and rows == {"explicit", "nothing", "derived"}, "R08.4", "%s|explicit-weight-first" % n,
+                      "the weight to apply is the explicitly requested one if present, else derived from the new value (with the ttl flag), else none", g.where(), "; ".join(sorted(set(bad))[:3]) or str(sorted(rows)))
     # worker arm forwards (id, weight)
     import c11
     W = c11.find_worker(ctx, A)
